@@ -28,7 +28,7 @@ RULE = ("(1) digests: random feature-rich fonts (2-4 scripts incl. RTL/Indic, ke
         "compileTTF, compileOTF, compileVariableTTF, compileVariableCFF2, compileInterpolatable{TTFs,OTFs}FromDS; sha256 of every "
         "saved font must equal the first-call digest of the reference interpreter; a mismatch is bisected to the tables that differ. "
         "Every 6th font: many sparse kerning classes + GPOS compaction through ONE shared ftConfig dict; every 6th: propagated anchor keys that collide; contextual (*) anchors with identifiers in a third; some histories start with a compile of ANOTHER font. "
-        "Every 3rd digest case passes filter OBJECTS through filters=[...] (a TransformationsFilter with Origin = cap height / half cap height / "
+        "Every 6th digest case (i % 6 == 1) passes filter OBJECTS through filters=[...] (a TransformationsFilter with Origin = cap height / half cap height / "
         "x height / half x height / baseline, mostly with a scale or slant, pre or post; in 40 % a second filter object: decompose / flatten / "
         "sortContours / decomposeTransformed; in half '...' = plus the lib filters): every non-reference interpreter creates the instances ONCE "
         "and hands the same objects to every call of its history, and at least one interpreter per case starts with a compile of another font "
@@ -293,7 +293,7 @@ def _gen_digest_case(rng, i, thorough, with_inplace=False):
     # every 3rd case: filter OBJECTS passed through `filters=`; each non-reference interpreter makes them once and hands the
     # same instances to every call of its history, incl. the compile of ANOTHER font with other vertical metrics that some
     # histories start with (an option object used before must behave like a new, equal one)
-    if i % 3 == 1:
+    if i % 3 == 1 and not markliga:   # (markliga cases are built around exact distances a transformation would change)
         opts = dict(opts, filterObjs=_gen_filter_objs(rng))
         # finding F2 (same root as F1): anchors MOVED by a filter are read from the caller's source font by the feature writers,
         # so inplace=True (filter applied to the source itself) gives other GPOS/GDEF than inplace=False.  inplace steps run in
